@@ -181,12 +181,28 @@ func c11Retrieval(tier string, r *Rand, ids []int64, add func(in interface{})) {
 		if kind == "rr" {
 			lim = 1<<55 - 1
 		}
+		emitted := 0
 		emit := func(docs []eDoc) {
 			if kind != "rr" {
 				add(eCase{Kind: kind, Policy: "error", Docs: docs, Queries: queries()})
 				return
 			}
 			c := rCase{Fields: []rField{{F: 0, Cont: "default"}, {F: 1, Cont: "default"}}, Docs: docs}
+			// every other case through the batch entry point AddDocuments; a document outside the range goes last in its group
+			if emitted++; emitted%2 == 0 {
+				var good, bad []eDoc
+				for _, d := range docs {
+					if inRange(d.ID, lim) {
+						good = append(good, d)
+					} else {
+						bad = append(bad, d)
+					}
+				}
+				if len(bad) <= 1 {
+					c.Docs = append(good, bad...)
+					c.Batch = len(c.Docs)
+				}
+			}
 			for i, q := range queries() {
 				c.Ops = append(c.Ops, rOp{S: 0, Op: "reset"})
 				if i%4 == 3 {
